@@ -32,6 +32,9 @@ func init() {
 		"strings.HasSuffix":  inStrPred("str.suffixof", true),
 		"strings.Contains":   inStrPred("str.contains", false),
 		"strings.Index":      inStrIndex,
+		"strings.IndexRune":  inStrIndexRune,
+		"strings.IndexByte":  inStrIndexRune,
+		"strings.LastIndex":  inConcOnly,
 		"strings.TrimPrefix": inTrimPrefix,
 		"strings.TrimSuffix": inTrimSuffix,
 		"strings.ToLower":    inConcOnly,
@@ -89,6 +92,15 @@ func init() {
 		"(time.Time).After":    inTimeCmp(token.GTR),
 		"(time.Time).Equal":    inTimeCmp(token.EQL),
 		"(time.Time).IsZero":   inTimeIsZero,
+		"(time.Duration).Seconds": inDurFloat("1000000000.0"),
+		"(time.Duration).Minutes": inDurFloat("60000000000.0"),
+		"(time.Duration).Hours":   inDurFloat("3600000000000.0"),
+		"(time.Duration).String": func(fr *frame, a []value) (value, bool) {
+			if !isSym(a[0]) {
+				return nil, false
+			}
+			return fr.m.opaqueStr("symbolic duration text"), true
+		},
 		"time.Sleep":           func(fr *frame, a []value) (value, bool) { fr.m.schedPoint("sleep"); return nil, true },
 		"time.NewTicker":       inNewTicker,
 		"(*time.Ticker).Stop":  inNop,
@@ -104,6 +116,12 @@ func init() {
 
 		"github.com/gofrs/uuid/v5.NewV4": inUUIDNewV4,
 		"os.Getenv":                      inGetenv,
+		"gopkg.in/robfig/cron.v2.Parse": func(fr *frame, a []value) (value, bool) {
+			// crontab strings are validated before Add (documented precondition): any spec parses
+			t := fr.m.namedType("gopkg.in/robfig/cron.v2", "SpecSchedule")
+			cell := zero(t)
+			return tuple{iface{t: types.NewPointer(t), v: &cell}, iface{}}, true
+		},
 		"runtime.Gosched":                func(fr *frame, a []value) (value, bool) { fr.m.schedPoint("gosched"); return nil, true },
 		"runtime.SetFinalizer":           inNop,
 		"runtime.KeepAlive":              inNop,
@@ -115,18 +133,54 @@ func inNop(fr *frame, args []value) (value, bool) {
 	return zeroResults(fr.fn.Signature), true
 }
 
-// inConcOnly: interpret the real body, but refuse symbolic arguments loudly.
+var nativeByName = map[string]func(c []value) value{
+	"strings.ToLower":   func(c []value) value { return strings.ToLower(c[0].(string)) },
+	"strings.ToUpper":   func(c []value) value { return strings.ToUpper(c[0].(string)) },
+	"strings.TrimSpace": func(c []value) value { return strings.TrimSpace(c[0].(string)) },
+	"strings.EqualFold": func(c []value) value { return strings.EqualFold(c[0].(string), c[1].(string)) },
+	"strings.Compare":   func(c []value) value { return strings.Compare(c[0].(string), c[1].(string)) },
+	"strings.LastIndex": func(c []value) value { return strings.LastIndex(c[0].(string), c[1].(string)) },
+}
+
+// inConcOnly: interpret the real body on concrete arguments, lift over tables,
+// and refuse other symbolic arguments loudly.
 func inConcOnly(fr *frame, args []value) (value, bool) {
 	if anySym(args...) {
+		if f := nativeByName[fr.fn.String()]; f != nil {
+			if r, ok := liftStr(fr, args, f); ok {
+				return r, true
+			}
+		}
 		panic(engineErr(fr.fn.String() + " on symbolic arguments is not modelled"))
 	}
 	return nil, false
+}
+
+// liftStr evaluates a pure string function natively per assignment when all
+// operands are concrete or table-valued.
+func liftStr(fr *frame, args []value, f func(c []value) value) (value, bool) {
+	for _, a := range args {
+		if !(isConcScalar(a) || tblOf(a) != nil) {
+			return nil, false
+		}
+	}
+	r, _, ok := fr.m.lift(args, func(c []value) (value, bool) { return f(c), true })
+	return r, ok
+}
+
+var nativeStrFns = map[string]func(c []value) value{
+	"str.prefixof": func(c []value) value { return strings.HasPrefix(c[0].(string), c[1].(string)) },
+	"str.suffixof": func(c []value) value { return strings.HasSuffix(c[0].(string), c[1].(string)) },
+	"str.contains": func(c []value) value { return strings.Contains(c[0].(string), c[1].(string)) },
 }
 
 func inStrPred(op string, patFirst bool) libIntrinsic {
 	return func(fr *frame, args []value) (value, bool) {
 		if !anySym(args...) {
 			return nil, false
+		}
+		if r, ok := liftStr(fr, args, nativeStrFns[op]); ok {
+			return r, true
 		}
 		s, p := termOf(args[0]), termOf(args[1])
 		if patFirst {
@@ -140,13 +194,33 @@ func inStrIndex(fr *frame, args []value) (value, bool) {
 	if !anySym(args...) {
 		return nil, false
 	}
+	if r, ok := liftStr(fr, args, func(c []value) value { return strings.Index(c[0].(string), c[1].(string)) }); ok {
+		return r, true
+	}
 	_, h := strLenBounds(args[0])
 	return mkInt("(str.indexof "+termOf(args[0])+" "+termOf(args[1])+" 0)", types.Int, -1, h), true
+}
+
+func inStrIndexRune(fr *frame, args []value) (value, bool) {
+	if !anySym(args...) {
+		return nil, false
+	}
+	if r, ok := liftStr(fr, args, func(c []value) value { return strings.IndexRune(c[0].(string), rune(asInt64(c[1]))) }); ok {
+		return r, true
+	}
+	if isSym(args[1]) {
+		panic(engineErr("strings.IndexRune with a symbolic rune"))
+	}
+	_, h := strLenBounds(args[0])
+	return mkInt("(str.indexof "+termOf(args[0])+" "+smtStr(string(rune(asInt64(args[1]))))+" 0)", types.Int, -1, h), true
 }
 
 func inTrimPrefix(fr *frame, args []value) (value, bool) {
 	if !anySym(args...) {
 		return nil, false
+	}
+	if r, ok := liftStr(fr, args, func(c []value) value { return strings.TrimPrefix(c[0].(string), c[1].(string)) }); ok {
+		return r, true
 	}
 	s, p := termOf(args[0]), termOf(args[1])
 	r := mkStr("(ite (str.prefixof " + p + " " + s + ") (str.substr " + s + " (str.len " + p + ") (- (str.len " + s + ") (str.len " + p + "))) " + s + ")")
@@ -158,6 +232,9 @@ func inTrimSuffix(fr *frame, args []value) (value, bool) {
 	if !anySym(args...) {
 		return nil, false
 	}
+	if r, ok := liftStr(fr, args, func(c []value) value { return strings.TrimSuffix(c[0].(string), c[1].(string)) }); ok {
+		return r, true
+	}
 	s, p := termOf(args[0]), termOf(args[1])
 	r := mkStr("(ite (str.suffixof " + p + " " + s + ") (str.substr " + s + " 0 (- (str.len " + s + ") (str.len " + p + "))) " + s + ")")
 	_, r.hi = strLenBounds(args[0])
@@ -167,6 +244,9 @@ func inTrimSuffix(fr *frame, args []value) (value, bool) {
 func inReplaceAll(fr *frame, args []value) (value, bool) {
 	if !anySym(args...) {
 		return nil, false
+	}
+	if r, ok := liftStr(fr, args, func(c []value) value { return strings.ReplaceAll(c[0].(string), c[1].(string), c[2].(string)) }); ok {
+		return r, true
 	}
 	r := mkStr("(str.replace_all " + termOf(args[0]) + " " + termOf(args[1]) + " " + termOf(args[2]) + ")")
 	_, h := strLenBounds(args[0])
@@ -260,6 +340,9 @@ func inItoa(fr *frame, args []value) (value, bool) {
 	sv, ok := args[0].(*symv)
 	if !ok {
 		return nil, false
+	}
+	if r, ok := liftStr(fr, args, func(c []value) value { return strconv.FormatInt(asInt64(c[0]), 10) }); ok {
+		return r, true
 	}
 	return itoaTerm(sv), true
 }
@@ -1088,6 +1171,18 @@ func inTimeAdd(fr *frame, args []value) (value, bool) {
 func inTimeCmp(op token.Token) libIntrinsic {
 	return func(fr *frame, args []value) (value, bool) {
 		return fr.m.binop(op, types.Typ[types.Int64], timeNs(args[0]), timeNs(args[1])), true
+	}
+}
+
+// Duration -> float seconds of a symbolic duration: exact rational (used for
+// metric values only; rounding is not modelled and never decides anything).
+func inDurFloat(div string) libIntrinsic {
+	return func(fr *frame, a []value) (value, bool) {
+		sv, ok := a[0].(*symv)
+		if !ok {
+			return nil, false
+		}
+		return mkReal("(/ (to_real "+sv.t+") "+div+")", types.Float64), true
 	}
 }
 
